@@ -39,6 +39,10 @@ def plus_one(x):
     return x + 1
 
 
+def add_const(x, c):
+    return x + c
+
+
 def first_of(*arrays):
     return arrays[0] * 1.0
 
@@ -230,6 +234,27 @@ def apply_ref(r: RefAction, op: list, ishape_now) -> RefAction:
             out = out.concat(p, newdim)
         out.squeeze(newdim)
         return out
+    if name == "reduce_default_dim":  # dim="" means the first dimension
+        _, red, bs = op
+        return r.reduce(NPRED[red], r.dims[0], False)
+    if name == "flatten_default_dim":
+        return r.reduce(lambda xs: np.stack(xs, axis=0), r.dims[0], False)
+    if name == "sel_kw":  # a.sel(x=label) / a.sel({x: label}, drop=True): same nodes, the scalar coordinate may be dropped
+        _, dim, lab, drop = op
+        return r.isel(dim, r.labels[dim].index(lab))
+    if name == "isel_slice":
+        _, dim, start, stop = op
+        return r.isel(dim, list(range(r.sizes[dim]))[start:stop])
+    if name == "map_array":  # one payload per node
+        out = np.empty(r.vals.shape, dtype=object)
+        for k, i in enumerate(np.ndindex(r.vals.shape)):
+            out[i] = r.vals[i] + (k + 1)
+        return RefAction(r.dims, r.labels, out)
+    if name == "join_match":  # join(other, new dim, match_coord_values=True): other's labels are ignored
+        _, oish = op
+        dims, labels, shape = other_spec("diffcoords", r, None)
+        o = source_ref(1, shape, tuple(oish), dims, {d: r.labels[d] for d in dims})
+        return r.concat(o, "m", None)
     if name == "isel":
         _, dim, idx = op
         return r.isel(dim, idx)
@@ -305,6 +330,27 @@ def apply_impl(a, op: list, r_before: RefAction):
     if name == "expand_coord":
         _, newdim, internal, crit, axis = op
         return a.expand(newdim, (internal, list(crit)), axis=axis)
+    if name == "reduce_default_dim":
+        _, red, bs = op
+        return getattr(a, red)(batch_size=bs)
+    if name == "flatten_default_dim":
+        return a.flatten()
+    if name == "sel_kw":
+        _, dim, lab, drop = op
+        return a.sel(drop=drop, **{dim: lab}) if drop else a.sel(**{dim: lab})
+    if name == "isel_slice":
+        _, dim, start, stop = op
+        return a.isel({dim: slice(start, stop)})
+    if name == "map_array":
+        payloads = np.empty(a.nodes.shape, dtype=object)
+        for k, i in enumerate(np.ndindex(a.nodes.shape)):
+            payloads[i] = fluent.Payload(add_const, [fluent.Node.input_name(0), k + 1])
+        return a.map(payloads)
+    if name == "join_match":
+        _, oish = op
+        dims, labels, shape = other_spec("diffcoords", r_before, None)
+        o = source_impl(1, shape, tuple(oish), dims, labels)
+        return a.join(o, "m", match_coord_values=True)
     if name == "isel":
         _, dim, idx = op
         return a.isel({dim: idx})
